@@ -456,6 +456,9 @@ def check_form(ctx, form, klass, sig):
         v = r.cells.get("calculation")
         if v and "${" in v:
             if r.cells.get("trigger"):
+                if not [sv for sv in setvalues.get(e.path, []) if sv.get("event") == "xforms-value-changed"]:
+                    # the expression of this row went somewhere else (or nowhere): nothing computes the row from its own cell
+                    ctx.viol("calculation-with-trigger:no-action-targets-the-row", f"{e.path} has calculation {v!r} and trigger {r.cells.get('trigger')!r}, but no value-changed action has ref={e.path}", J.wit(cell="calculation"))
                 for sv in setvalues.get(e.path, []):
                     if sv.get("event") == "xforms-value-changed" and sv.get("value") is not None:
                         par = sv.getparent()
@@ -687,6 +690,25 @@ def multi_call_forms():
             f.survey = [Row("repeat", "begin repeat", "mr", {"label": "R"}, kids)]
             f.settings = {"form_id": "mir"}
             yield f, f"multi-call|{k}|{col}"
+
+
+def same_name_trigger_forms():
+    """Triggered calculations that share their name (in different groups of one repeat) and their trigger: each action targets its own row and its
+    references are resolved from that row."""
+    for k, (d1, d2) in enumerate([(1, 2), (2, 1), (1, 1), (2, 3)]):
+        def nest(depth, inner, tag):
+            node = inner
+            for j in range(depth):
+                node = Row("group", "begin group", f"{tag}{j}", {"label": "G"}, [node])
+            return node
+        c1 = Row("q", "calculate", "samec", {"calculation": "${sx} + 1", "trigger": "${strig}"})
+        c2 = Row("q", "text", "samec", {"label": "C", "calculation": "${sx} + ${sy}", "trigger": "${strig}"})
+        rep = Row("repeat", "begin repeat", "srep", {"label": "R"}, [Row("q", "integer", "sx", {"label": "x"}), Row("q", "integer", "sy", {"label": "y"}), Row("q", "text", "strig", {"label": "t"}),
+                                                                     nest(d1, c1, "ga"), nest(d2, c2, "gb")])
+        f = Form()
+        f.survey = [rep]
+        f.settings = {"form_id": "snt"}
+        yield f, f"same-name-trigger|{d1}|{d2}"
 
 
 def lone_cell_forms():
@@ -926,6 +948,10 @@ def run_shard(ctx):
         if ctx.mine(k):
             ctx.ctr("container_target_forms")
             check_form(ctx, form, "container-target", sig)
+    for k, (form, sig) in enumerate(same_name_trigger_forms()):
+        if ctx.mine(k):
+            ctx.ctr("same_name_trigger_forms")
+            check_form(ctx, form, "same-name-trigger", sig)
     for k, (form, sig) in enumerate(multi_call_forms()):
         if ctx.mine(k):
             ctx.ctr("indexed_repeat_forms")
